@@ -59,6 +59,7 @@ func genCompileZoo(seed uint64) czWorld {
 			fmt.Fprintf(&sb, "    access(all) view fun f%d(_ x: Int): Int { return x + %d }\n", f, f+i)
 		}
 		fmt.Fprintf(&sb, "    access(all) entitlement Ent%d\n", i)
+		sb.WriteString("    access(all) entitlement EA\n    access(all) entitlement EB\n    access(all) struct interface IA {}\n    access(all) struct interface IB {}\n    access(all) struct Both: IA, IB { init() {} }\n")
 		sb.WriteString("    access(all) struct P {\n        access(all) let v: Int\n        init(_ v: Int) { self.v = v }\n        access(all) view fun get(): Int { return self.v }\n    }\n")
 		sb.WriteString("    access(all) var total: Int\n    access(all) fun bump(): Int { self.total = self.total + 1; return self.total }\n    init() { self.total = 0 }\n}\n")
 		w.Contracts = append(w.Contracts, czContract{l.name, l.addr, sb.String()})
@@ -123,6 +124,7 @@ func genCompileZoo(seed uint64) czWorld {
 	for _, it := range ifaces {
 		fmt.Fprintf(&sb, "import %s from 0x%x\n", it.name, it.addr)
 	}
+	fmt.Fprintf(&sb, "import %s from 0x%x\n", leaves[0].name, leaves[0].addr)
 	sb.WriteString("access(all) contract Impl {\n    access(all) entitlement Go\n")
 	var confS, confR []string
 	for _, it := range ifaces {
@@ -133,6 +135,9 @@ func genCompileZoo(seed uint64) czWorld {
 	fmt.Fprintf(&sb, "    access(all) resource R: %s {\n        access(all) var n: Int\n        init() { self.n = 0 }\n        access(all) fun work(_ x: Int): Int { self.n = self.n + x; return self.n }\n        access(Go) fun secret(): Int { return 42 }\n    }\n", strings.Join(confR, ", "))
 	sb.WriteString("    access(all) attachment Tag for R {\n        access(all) let label: String\n        init(_ l: String) { self.label = l }\n        access(all) fun both(): String { return self.label.concat(base.n.toString()) }\n    }\n")
 	sb.WriteString("    access(all) fun mk(): @R { return <- create R() }\n")
+	// the same intersection and the same entitlement set are written in one order here and in the other order in the transaction
+	l0 := leaves[0]
+	fmt.Fprintf(&sb, "    access(all) fun orders(): [Type] {\n        let v: {%s.IA, %s.IB} = %s.Both()\n        let p = %s.P(1)\n        let r = &p as auth(%s.EA, %s.EB) &%s.P\n        return [v.getType(), r.getType(), Type<{%s.IA, %s.IB}>(), Type<auth(%s.EA, %s.EB) &%s.P>()]\n    }\n", l0.name, l0.name, l0.name, l0.name, l0.name, l0.name, l0.name, l0.name, l0.name, l0.name, l0.name, l0.name)
 	nfun := 2 + r.Intn(5)
 	for f := 0; f < nfun; f++ {
 		switch r.Intn(5) {
@@ -158,7 +163,12 @@ func genCompileZoo(seed uint64) czWorld {
 			fmt.Fprintf(&tx, "import %s from 0x%x\n", l.name, l.addr)
 		}
 	}
-	body := "        let s = Impl.S()\n        log(s.run(3))\n        log(s.dflt0())\n        let r <- Impl.mk()\n        log(r.work(5))\n        destroy r\n"
+	// the leaf is always imported by the transaction (it names its types in the other order)
+	if !strings.Contains(tx.String(), "import "+l0.name+" from") {
+		fmt.Fprintf(&tx, "import %s from 0x%x\n", l0.name, l0.addr)
+	}
+	body := fmt.Sprintf("        let rev: {%s.IB, %s.IA} = %s.Both()\n        let pp = %s.P(2)\n        let rr = &pp as auth(%s.EB, %s.EA) &%s.P\n        log(rev.getType().identifier)\n        log(rr.getType().identifier)\n        log(Type<{%s.IB, %s.IA}>().identifier)\n        log(Impl.orders().length)\n", l0.name, l0.name, l0.name, l0.name, l0.name, l0.name, l0.name, l0.name, l0.name)
+	body += "        let s = Impl.S()\n        log(s.run(3))\n        log(s.dflt0())\n        let r <- Impl.mk()\n        log(r.work(5))\n        destroy r\n"
 	for f := 0; f < nfun; f++ {
 		body += fmt.Sprintf("        log(Impl.g%d(%d))\n", f, 3+f)
 	}
